@@ -25,6 +25,7 @@ Root   == [C |-> "US", ST |-> "WA", O |-> "Acme", CN |-> "Acme Root CA"]
 Leaves == {[ok |-> TRUE, dn |-> Base, shape |-> "base"], [ok |-> TRUE, dn |-> Rich, shape |-> "rich"], [ok |-> TRUE, dn |-> Comma, shape |-> "comma"],
            \* a multi-valued RDN of DISTINCT attribute types is an ordinary attribute map once the certificate is parsed
            [ok |-> TRUE, dn |-> With(Base, "OU", "MultiValued"), shape |-> "multiRDN"], [ok |-> FALSE, dn |-> Base, shape |-> "dupAttr"],
+           [ok |-> TRUE, dn |-> With(Base, "O", "Acme "), shape |-> "paddedO"],      \* a value that ends with a blank
            [ok |-> FALSE, dn |-> Base, shape |-> "missingST"], [ok |-> FALSE, dn |-> Base, shape |-> "hashForm"]}
 
 X(dn) == [kind |-> "x509", dn |-> dn]
@@ -35,6 +36,7 @@ IdsFor(leaf) ==
   {X(d), X(Restrict(d, {"C", "ST", "O"})), X(Restrict(d, {"C", "ST", "O", "CN"})),
    X(With(d, "DC", "extra")),                               \* strict superset
    X(With(d, "O", d["O"] \o "x")), X(With(d, "CN", "wea")),  \* one-character near misses
+   X(With(d, "O", d["O"] \o " ")), X(With(d, "O", " " \o d["O"])), X(With(d, "O", "Acme")),   \* ... a blank more or less at either end of a value
    X(With(Restrict(d, {"C", "ST", "O"}), "C", "us")),        \* case variant of a value
    X(Inter), X(Root),                                        \* a CA's subject
    X([C |-> "DE", ST |-> "BY", O |-> "Other"]),
